@@ -34,20 +34,26 @@ def method_tasks(prop):
             if kind == "fill-rollback" and K not in SINGLE_PATH:
                 continue
             out.append(("method", K, kind))
+    if prop == "C04":
+        # "the reloaded container is interchangeable with the original under +, *, zero(), copy()":
+        # the same interface clauses on pre-states built the way ed / fromJsonFragment build them
+        for K in CLASSES:
+            for kind in ("zero", "add", "iadd", "mul"):
+                out.append(("method", K, kind, "reloaded"))
     return out
 
 
-def run_method_task(P, K, kind):
+def run_method_task(P, K, kind, mode="live"):
     from . import contracts as C
 
     if kind == "zero":
-        return [C.ob_zero(P, K)]
+        return [C.ob_zero(P, K, mode=mode)]
     if kind == "add":
-        return C.ob_add(P, K)
+        return C.ob_add(P, K, mode=mode)
     if kind == "iadd":
-        return C.ob_iadd(P, K)
+        return C.ob_iadd(P, K, mode=mode)
     if kind == "mul":
-        return [C.ob_mul(P, K, "__mul__")]
+        return [C.ob_mul(P, K, "__mul__", mode=mode)]
     if kind == "rmul":
         return [C.ob_mul(P, K, "__rmul__")]
     if kind == "fill":
